@@ -31,13 +31,15 @@
 
     Full statements: every design RandomGen accepts; proved for [Frag.frag1]
     (see Properties/C04.v; it contains the earlier [Frag.frag0]) - hence
-    [_partial].  [keys_count] for every design the model accepts is NOT proved
-    (it needs the length / range facts of both unrankers for arbitrary weights
-    and memo tables).  [C06_loop_exhausts] is unconditional (any key type, any
-    acceptance test). *)
+    [_partial].  [_frag2]: the same with weights ([Frag.frag2], see
+    Properties/C04.v and the note on [enumerates] in Properties/C05.v): stated
+    for every enumerator [en] the model builds whose key list is defined.
+    [keys_count] for every design the model accepts (derived factors, several
+    crossings, preambles) is NOT proved.  [C06_loop_exhausts] is unconditional
+    (any key type, any acceptance test). *)
 From Coq Require Import ZArith List Bool.
 From SP Require Import Design.Flat Design.Sem Random.Enum Random.Frag Random.FragSem Random.Loop
-  Random.Frag0Enum Random.Frag1Thms Random.Frag0Thms Random.Frag0Loop Random.Frag0Example.
+  Random.Frag0Enum Random.Frag2Thms Random.Frag1Thms Random.Frag0Thms Random.Frag0Loop Random.Frag0Example.
 
 Theorem C06_accepted_exact_partial : forall (fb : flat), frag1 fb = true -> fl_errors_fail fb = false ->
   NoDup (map (cand_tseq fb) (accepted_keys fb)) /\
@@ -47,24 +49,24 @@ Print Assumptions C06_accepted_exact_partial.
 
 Theorem C06_count_exact_partial : forall (fb : flat), frag1 fb = true ->
   fl_errors_fail fb = false -> rejection_free fb = true ->
-  make_enumerator fb = ROk (f0_enum fb) /\
+  make_enumerator fb = ROk (f0_enum fb nil nil) /\
   NoDup (map (cand_tseq fb) (keys_of fb)) /\
   (forall s, In s (map (cand_tseq fb) (keys_of fb)) <-> valid_b (code_sem fb) s = true) /\
-  Z.of_nat (length (map (cand_tseq fb) (keys_of fb))) = possible_keys fb (f0_enum fb).
+  Z.of_nat (length (map (cand_tseq fb) (keys_of fb))) = possible_keys fb (f0_enum fb nil nil).
 Proof. exact f1_count_exact. Qed.
 Print Assumptions C06_count_exact_partial.
 
 (** the earlier statement (fragment frag0, where nothing is ever rejected) is an instance *)
 Theorem C06_count_exact_frag0 : forall (fb : flat), frag0 fb = true -> fl_errors_fail fb = false ->
-  make_enumerator fb = ROk (f0_enum fb) /\
+  make_enumerator fb = ROk (f0_enum fb nil nil) /\
   NoDup (map (cand_tseq fb) (keys_of fb)) /\
   (forall s, In s (map (cand_tseq fb) (keys_of fb)) <-> valid_b (code_sem fb) s = true) /\
-  Z.of_nat (length (map (cand_tseq fb) (keys_of fb))) = possible_keys fb (f0_enum fb).
+  Z.of_nat (length (map (cand_tseq fb) (keys_of fb))) = possible_keys fb (f0_enum fb nil nil).
 Proof. exact f0_count_exact. Qed.
 Print Assumptions C06_count_exact_frag0.
 
 Theorem C06_keys_count_partial : forall (fb : flat), frag1 fb = true -> fl_errors_fail fb = false ->
-  make_enumerator fb = ROk (f0_enum fb) /\ Z.of_nat (length (keys_of fb)) = possible_keys fb (f0_enum fb).
+  make_enumerator fb = ROk (f0_enum fb nil nil) /\ Z.of_nat (length (keys_of fb)) = possible_keys fb (f0_enum fb nil nil).
 Proof. exact f1_keys_count. Qed.
 Print Assumptions C06_keys_count_partial.
 
@@ -116,4 +118,45 @@ Example C06_example_rejection :
 Proof.
   split; [apply ex1_frag|]. split; [apply ex1_frag|]. split; [apply ex1_keys|]. split; [apply ex1_keys|].
   split; [apply ex1_keys | apply ex1_checks].
+Qed.
+
+(** with weights (fragment [Frag.frag2]) *)
+Theorem C06_accepted_exact_frag2 : forall (fb : flat), frag2 fb = true -> enumerates fb -> fl_errors_fail fb = false ->
+  NoDup (map (cand_tseq fb) (accepted_keys fb)) /\
+  (forall s, In s (map (cand_tseq fb) (accepted_keys fb)) <-> valid_b (code_sem fb) s = true).
+Proof. exact f2_accepted_exact. Qed.
+Print Assumptions C06_accepted_exact_frag2.
+
+Theorem C06_keys_count_frag2 : forall (fb : flat), frag2 fb = true -> forall (en : enumerator),
+  make_enumerator fb = ROk en -> (exists ks, all_keys fb en = ROk ks) -> fl_errors_fail fb = false ->
+  NoDup (keys_of fb) /\ Z.of_nat (length (keys_of fb)) = possible_keys fb en.
+Proof. exact f2_keys_count. Qed.
+Print Assumptions C06_keys_count_frag2.
+
+Theorem C06_count_exact_frag2 : forall (fb : flat), frag2 fb = true -> forall (en : enumerator),
+  make_enumerator fb = ROk en -> (exists ks, all_keys fb en = ROk ks) ->
+  fl_errors_fail fb = false -> rejection_free fb = true ->
+  NoDup (map (cand_tseq fb) (keys_of fb)) /\
+  (forall s, In s (map (cand_tseq fb) (keys_of fb)) <-> valid_b (code_sem fb) s = true) /\
+  Z.of_nat (length (map (cand_tseq fb) (keys_of fb))) = possible_keys fb en.
+Proof. exact f2_count_exact. Qed.
+Print Assumptions C06_count_exact_frag2.
+
+Theorem C06_exhaust_frag2 : forall (fb : flat), frag2 fb = true -> enumerates fb -> fl_errors_fail fb = false ->
+  forall (requested : nat) (draws res : list key),
+  (forall k, In k draws -> In k (keys_of fb)) ->
+  sample_loop key key_eqb (key_accepted fb) (length (keys_of fb)) requested draws nil nil = Some res ->
+  length (keys_of fb) <= requested ->
+  NoDup (map (cand_tseq fb) res) /\
+  (forall s, In s (map (cand_tseq fb) res) <-> valid_b (code_sem fb) s = true).
+Proof. exact f2_loop_exhausts. Qed.
+Print Assumptions C06_exhaust_frag2.
+
+Example C06_example_weighted :
+  frag2 ex3_flat = true /\ frag1 ex3_flat = false /\ enumerates_b ex3_flat = true /\ length (keys_of ex3_flat) = 96 /\
+  length (accepted_keys ex3_flat) = 32 /\ length (all_valid (code_sem ex3_flat)) = 32 /\
+  check_accepted_count ex3_flat = true.
+Proof.
+  split; [apply ex3_frag|]. split; [apply ex3_frag|]. split; [apply ex3_frag|]. split; [apply ex3_keys|]. split; [apply ex3_keys|].
+  split; [apply ex3_keys | apply ex3_checks].
 Qed.
